@@ -449,4 +449,7 @@ def check(prog: Program, rep):
     plumb.ignore_list_accumulates(prog, rep, "C10.R8")
     plumb.node_expansion_length_rule(prog, rep, "C10.R8")
     plumb.percentile_rules(prog, rep, "C10.R8")
-
+    from rules.values import python_arithmetic as _pa10
+    from rules.common import RuleProxy as _RP10
+    _pa10(prog, _RP10(rep, "C10.R8"), "C04.R5", [prog.own_method("kFlowDecompCycles", "__init__")],
+          "the structural repetition bound of ignored edges comes out too small and a decomposable flow is reported infeasible")
